@@ -1,7 +1,8 @@
 (* C12 property theorems: statements only, each closed by [exact]. *)
 From Boltons Require Import Lib.Prelude Lib.C12_Base Spec.C12_Spec Model.C12_Model
   Proofs.C12_Find Proofs.C12_Recv Proofs.C12_Send Proofs.C12_Main Proofs.C12_Chunking
-  Proofs.C12_Netstring Proofs.C12_NsRefine Proofs.C12_Consts Gen.C12_Gen.
+  Proofs.C12_Netstring Proofs.C12_NsRefine Proofs.C12_Consts Gen.C12_Gen
+  Lib.C12_Py Gen.C12_Src Proofs.C12_SrcEq.
 
 (* --- the rolling search offset of recv_until loses no occurrence ------------------- *)
 Theorem C12_find_rolling : forall d old nxt stop,
@@ -221,3 +222,44 @@ Theorem C12_constants_current :
   N.of_nat DEFAULT_MAXSIZE = gen_DEFAULT_MAXSIZE /\ (2 ^ 50 <= gen_RECV_LARGE_MAXSIZE)%N.
 Proof. exact constants_current. Qed.
 Print Assumptions C12_constants_current.
+
+(* --- (T) the loop bodies regenerated from boltons/socketutils.py on every run (Gen/C12_Src.v: one iteration of
+       recv_until's `while 1`, of recv_size's `while nxt`, of send's `while sbuf[0]`, and the slicing statements
+       after the two receive loops, translated statement by statement with Python's integer / negative-index
+       semantics) assemble to exactly the model's functions ----------------------------------------------------- *)
+(* the rolling search offset as the source writes it: -len(nxt) - len_delimiter + 1, a negative index from the
+   end of recvd, is the model's (and C12_find_rolling's) len(old) + 1 - len(delimiter) *)
+Theorem C12_src_rolling_offset : forall d recvd nxt, d <> [] -> nxt <> [] ->
+  src_ru_post (py_len d) recvd nxt = ICont (recvd ++ nxt, (- py_len nxt - py_len d + 1)%Z) /\
+  Z.to_nat (py_start (py_len (recvd ++ nxt)) (- py_len nxt - py_len d + 1)) = length recvd + 1 - length d.
+Proof. exact src_rolling_offset. Qed.
+Print Assumptions C12_src_rolling_offset.
+
+Theorem C12_src_recv_until : forall d_on s d m w mz,
+  mz_ok (resolve (maxsize s) m) mz (length (rbuf s) + length (flat (nt s))) ->
+  recv_until_src d_on s d mz w = recv_until_dl d_on s d m w.
+Proof. exact recv_until_src_eq. Qed.
+Print Assumptions C12_src_recv_until.
+
+Theorem C12_src_recv_size : forall s size sz,
+  sz_ok size sz (length (rbuf s) + length (flat (nt s))) ->
+  recv_size_src s sz = recv_size_lim s size.
+Proof. exact recv_size_src_eq. Qed.
+Print Assumptions C12_src_recv_size.
+
+Theorem C12_src_send_loop : forall tmo fuel late cur total sc w,
+  send_loop_src fuel tmo late cur (Z.of_nat total) sc w =
+  match send_loop fuel tmo late cur total sc w with
+  | (inl t, c, sc', w') => (inl (Z.of_nat t), c, sc', w')
+  | (inr e, c, sc', w') => (inr e, c, sc', w')
+  end.
+Proof. exact send_loop_src_eq. Qed.
+Print Assumptions C12_src_send_loop.
+
+(* the hypotheses are met by the code's own values: maxsize=None is 1024**5 (regenerated constant), far above
+   any stream the model runs on *)
+Example C12_src_ex :
+  mz_ok None (Z.of_N gen_RECV_LARGE_MAXSIZE) 4000 /\
+  recv_until_src true (bs_init_dl 100 2 true ex_net []) [13;10]%N 100 false =
+  recv_until_dl true (bs_init_dl 100 2 true ex_net []) [13;10]%N MUnset false.
+Proof. split; [vm_compute; discriminate|vm_compute; reflexivity]. Qed.
